@@ -27,7 +27,12 @@ def mask_image_source_from_coverage(img_source, bbox, bbox_srs, coverage,
     img = img_source.as_image()
     img = mask_image(img, bbox, bbox_srs, coverage)
     result = create_image(img.size, image_opts)
-    result.paste(img, (0, 0), img)
+    if result.mode == 'RGBA' and hasattr(Image, 'alpha_composite'):
+        # paste with the image as its own mask applies the alpha of
+        # semi-transparent pixels twice and mixes them with the background color
+        result = Image.alpha_composite(result, img)
+    else:
+        result.paste(img, (0, 0), img)
     return ImageSource(result, image_opts=image_opts)
 
 
